@@ -67,6 +67,7 @@ class RealScenario:
         self.buf = bytearray()
         self.ready = []
         self.nparsed = 0
+        self.watchdogs_answered = 0
         self.threads_before = set(threading.enumerate())
         self.fds_before = open_fds()
 
@@ -97,8 +98,18 @@ class RealScenario:
             if len(self.buf) < ln:
                 break
             self.nparsed += 1
-            self.ready.append(bytes(self.buf[:ln]))
+            frame = bytes(self.buf[:ln])
             del self.buf[:ln]
+            if frame[4] & 0x80 and int.from_bytes(frame[5:8], "big") == 280:
+                # the node's own watchdog request (it counts select() returns, not seconds, so it may come at any time under
+                # traffic): answered like any peer would, and not part of what the scenarios judge
+                self.watchdogs_answered += 1
+                try:
+                    self.psock.sendall(R.encode(N.dwa(hbh=int.from_bytes(frame[12:16], "big"), e2e=int.from_bytes(frame[16:20], "big"))))
+                except OSError:
+                    pass
+                continue
+            self.ready.append(frame)
 
     def recv_messages(self, n, deadline=None):
         """Read until n whole messages have arrived; returns them decoded by the reference decoder, and raw."""
